@@ -516,6 +516,22 @@ func (b blog) concat() []byte {
 	return out
 }
 
+// endClass: the statement allows exactly two endings of a read on a truncated log: end-of-file (io.EOF) or an
+// error that the package itself classifies as corruption (wal.IsDataCorruptionError). Any other error is an
+// ending the callers (SearchForHeight, consensus catchupReplay, replay_file) cannot handle.
+func endClass(pfx string, rd reading) string {
+	if rd.eof {
+		return ""
+	}
+	if n := len(rd.obs); n > 0 && rd.obs[n-1].kind == 'e' {
+		if rd.obs[n-1].dc {
+			return ""
+		}
+		return pfx + ":prefix-then-error-that-is-neither-EOF-nor-corruption(" + errClass(rd.obs[n-1].err) + ")"
+	}
+	return pfx + ":reader-stopped-without-EOF-or-error"
+}
+
 func checkTrunc(b blog, how string, k int, rd reading) {
 	lo, hi := b.completeLines(k)
 	s := succ(rd.obs)
@@ -548,6 +564,9 @@ func checkTrunc(b blog, how string, k int, rd reading) {
 	if key == "" && len(s) > hi {
 		key = "trunc:item-returned-from-incomplete-line"
 	}
+	if key == "" {
+		key = endClass("trunc", rd)
+	}
 	if key != "" {
 		fail(key, len(b.seq)*100000+k, fmt.Sprintf("%s cut@%d", b.label, k),
 			map[string]any{"log": b.label, "mode": how, "cut_at_byte": k, "complete_lines": lo, "read": describe(rd.obs, b.seq), "eof": rd.eof,
@@ -556,11 +575,7 @@ func checkTrunc(b blog, how string, k int, rd reading) {
 	}
 	switch {
 	case len(rd.obs) > 0 && rd.obs[len(rd.obs)-1].kind == 'e':
-		if rd.obs[len(rd.obs)-1].dc {
-			r.Outcome("trunc_prefix_then_DataCorruptionError")
-		} else {
-			r.Outcome("trunc_prefix_then_other_error")
-		}
+		r.Outcome("trunc_prefix_then_DataCorruptionError") // any other error was rejected by endClass above
 	case len(s) > lo:
 		r.Outcome("trunc_prefix_incl_unterminated_full_line_then_EOF")
 	case b.atBoundary(k):
@@ -1119,6 +1134,10 @@ func replay(path string) {
 		dirPool <- d
 	case "P4":
 		runP4(p4case{syms: sp.Syms, lead: sp.Lead, rot: sp.Rot, base: sp.Base})
+	case "P5":
+		d := <-dirPool
+		truncSearchOne(d, mkSearchBlog(sp.Syms, sp.Rot), sp.Cut)
+		dirPool <- d
 	default:
 		r.HarnessError("replay: no replay spec in %s", path)
 	}
@@ -1167,9 +1186,14 @@ func main() {
 		fmt.Printf("P1 done at %.1fs evals=%d\n", time.Since(runStart).Seconds(), r.Evals())
 	}
 	if run("2") {
-		setPhaseShare(0.75)
+		setPhaseShare(0.68)
 		phase2(logs)
 		fmt.Printf("P2 done at %.1fs evals=%d\n", time.Since(runStart).Seconds(), r.Evals())
+	}
+	if run("5") {
+		setPhaseShare(0.78)
+		phase5()
+		fmt.Printf("P5 done at %.1fs evals=%d\n", time.Since(runStart).Seconds(), r.Evals())
 	}
 	if run("3") {
 		setPhaseShare(1.0)
@@ -1191,10 +1215,11 @@ func main() {
 	r.Assumptions = []string{
 		"reference model: list of written items + an independent encoder (base64-nopad(crc32c(amino sized bytes) || bytes) + newline, marker = #{\"h\":\"N\"}); amino itself is trusted",
 		"a crash is modelled as truncation of the byte stream at any byte (files after the cut absent; both 'head' and 'rotated + empty head' variants at file boundaries)",
+		"after the surviving prefix a read must end with io.EOF or an error for which wal.IsDataCorruptionError is true (the only two endings SearchForHeight, catchupReplay and replay_file handle); a content-complete but unterminated last line may be returned or dropped",
 		"marker lines have no checksum in the format (documented TODO); single-byte corruption of a marker line is classified, not judged",
 		"maxSize is scaled to 4096 bytes so that exactly-max and oversized messages are cheap to enumerate",
 		"P2-P4 layouts are written directly as files; P1 shows the real writer/rotation produces exactly those bytes",
 	}
-	r.Finish("P1: all sequences <= n over 8 line kinds x all rotation vectors through the real writer; P2: every byte cut of every log in a covering set (all sequences <= 2 over 7 kinds, two layouts, + long logs); P3: every byte of every line x substitution set; P4: all {message,marker} sequences <= n x all splits into <= F files x all heights x 5 option sets. distinct = distinct layouts in P1/P4 and distinct (line kind, context, byte offset[, value]) faults in P2/P3",
+	r.Finish("P1: all sequences <= n over 8 line kinds x all rotation vectors through the real writer; P2: every byte cut of every log in a covering set (all sequences <= 2 over 7 kinds, two layouts, + long logs); P3: every byte of every line x substitution set; P4: all {message,marker} sequences <= n x all splits into <= F files x all heights x 5 option sets; P5: all {message,marker} sequences <= 3 (4 in two layouts; thorough 6) x all splits x every byte cut x all heights x search modes, exact ending oracle (EOF or corruption error only) as in P2. distinct = distinct layouts in P1/P4, distinct (line kind, context, byte offset[, value]) faults in P2/P3 and distinct (layout, cut) in P5",
 		true, map[string]any{"phases_env": only})
 }
